@@ -26,7 +26,7 @@ TEXT_LINES = [
 ]
 
 FILE_NAMES = ['out.txt', 'data.bin', 'a b2', 'a-b', 'a_b', 'stdout', 'stderr', 'exit_code', 'report-v1.txt',
-              'report_v1.txt', 'x\u00b2.txt', 'caf\u00e9.txt', 'UPPER.TXT', 'no_ext', 'd.e.f.txt', '1start.txt']
+              'report_v1.txt', 'x\u00b2.txt', 'caf\u00e9.txt', 'UPPER.TXT', 'no_ext', 'd.e.f.txt', '1start.txt', '2', '3']
 
 
 def sh_quote(s):
